@@ -9,9 +9,14 @@ import Glom.Model.C11Env
          "spelling": {"text":"a.b"} | {"parts":[{"seg":Val} | {"t":[[op,Val]…]}…]},
          "value": {"lit":Val} | {"t":[[op,Val]…]},
          "missing": null | "dict" | "list" | "obj" | "tuple" | "raise",
+         "readback": null | {"spelling": …}     (chain mode: `(Assign(…), <peek>, readPath)`, same root),
          "impl": {"res": {"ok":Val} | {"err":{"cls":…,"inner":…|null,"idx":…|null,"dest":Val|null,
                                                "pae":b,"passign":b,"pdelete":b,"glom":b}},
-                  "heap":[Obj…], "calls":n, "hidden":b}}
+                  "heap":[Obj…], "calls":n, "hidden":b,
+                  "read": null | "notrun" | {"ok":Nest} | {"err":{…}},   Nest: {"v":Val} | {"l":[Nest…]}
+                  "frame_seen": b   (S-rooted: was the scope frame observed from a later chain step?
+                                     if not, the Scope cell of "heap" carries no information),
+                  "scope_kept": b   (the mapping handed to glom(scope=…) is exactly as it was)}}
 -/
 namespace Glom.C11.Driver
 open Lean Glom Glom.Mut Glom.C11
@@ -54,6 +59,22 @@ def obsOfJson (j : Json) : Except String Obs := do
            calls := ← j.getObjValAs? Nat "calls"
            hidden := ← j.getObjValAs? Bool "hidden" }
 
+partial def nestOfJson (j : Json) : Except String Nest := do
+  if let .ok v := j.getObjVal? "v" then return .leaf (← valOfJson v)
+  else if let .ok (.arr a) := j.getObjVal? "l" then return .node (← a.toList.mapM nestOfJson)
+  else throw s!"bad Nest {j.compress}"
+
+partial def nestToJson : Nest → Json
+  | .leaf v => Json.mkObj [("v", valToJson v)]
+  | .node xs => Json.mkObj [("l", Json.arr (xs.map nestToJson).toArray)]
+
+def readObsOfJson (j : Json) : Except String ReadObs := do
+  match j with
+  | .str _ => return .notRun
+  | _ =>
+    if let .ok n := j.getObjVal? "ok" then return .ok (← nestOfJson n)
+    else return .err (← obsResOfJson j)
+
 def optToJson {α} (f : α → Json) : Option α → Json
   | some a => f a
   | none => .null
@@ -64,6 +85,17 @@ def obsResToJson : ObsRes → Json
       ("cls", c), ("inner", optToJson Json.str inner), ("idx", optToJson (fun (n : Nat) => toJson n) idx),
       ("dest", optToJson (fun v => Json.mkObj [("v", valToJson v)]) dest),
       ("pae", pae), ("passign", pa), ("pdelete", pd), ("glom", g)])]
+
+def readObsToJson : ReadObs → Json
+  | .notRun => Json.str "notrun"
+  | .ok n => Json.mkObj [("ok", nestToJson n)]
+  | .err e => obsResToJson e
+
+/-- the Scope cell of an observation that could not see the frame is taken from `src` -/
+def patchCell (hp : Heap) (a : Val) (src : Heap) : Heap :=
+  match a with
+  | .ref i => (match src[i]? with | some o => hp.set i o | none => hp)
+  | _ => hp
 
 def obsToJson (o : Obs) : Json :=
   Json.mkObj [("res", obsResToJson o.res), ("heap", heapToJson o.heap), ("calls", o.calls),
@@ -89,6 +121,7 @@ structure Common where
   sroot : Bool
   sref : Val
   steps : List Step
+  hasScope : Bool      -- the heap has a cell standing for the scope frame
 
 def commonOfJson (j : Json) : Except String Common := do
   let classes ← classTableOfJson (← j.getObjVal? "classes")
@@ -101,7 +134,8 @@ def commonOfJson (j : Json) : Except String Common := do
     | .ok v => valOfJson v
     | .error _ => pure Val.none
   let steps ← stepsOfSpelling (← j.getObjVal? "spelling")
-  return { env := genEnv classes flags, heap, target, sroot := root == "S", sref, steps }
+  return { env := genEnv classes flags, heap, target, sroot := root == "S", sref, steps,
+           hasScope := sref != Val.none }
 
 def resTag : ObsRes → String
   | .ok _ => "ok"
@@ -112,25 +146,71 @@ def run (j : Json) : Except String Json := do
   let c ← commonOfJson j
   let vs ← valSpecOfJson (← j.getObjVal? "value")
   let missing ← missingOfJson ((j.getObjVal? "missing").toOption.getD .null)
-  let implObs ← obsOfJson (← j.getObjVal? "impl")
+  let implJ ← j.getObjVal? "impl"
+  let implObs0 ← obsOfJson implJ
   let root := if c.sroot then c.sref else c.target
-  let out := assign c.env c.sroot c.sref missing c.heap c.target c.steps vs
+  -- chain mode: a later step of the same chain reads a path back
+  let rd : Option (List Step) ← (match j.getObjVal? "readback" with
+    | .ok .null => pure none
+    | .ok r => do pure (some (← stepsOfSpelling (← r.getObjVal? "spelling")))
+    | .error _ => pure none : Except String (Option (List Step)))
+  let implRead : Option ReadObs ← (match implJ.getObjVal? "read" with
+    | .ok .null => pure none
+    | .ok r => do pure (some (← readObsOfJson r))
+    | .error _ => pure none : Except String (Option ReadObs))
+  let frameSeen := (implJ.getObjValAs? Bool "frame_seen").toOption.getD true
+  let scopeKept := (implJ.getObjValAs? Bool "scope_kept").toOption.getD true
+  let (out, rdOut) := match rd with
+    | some rs => assignThenRead c.env c.sroot c.sref missing c.heap c.target c.steps vs rs
+    | none => (assign c.env c.sroot c.sref missing c.heap c.target c.steps vs, none)
   let modelObs := observe c.env out
-  let ref := refAssign c.env c.heap c.target root c.steps vs missing
-  if ref == .unsupported || (match out.2 with | .error .unmodelled => true | _ => false) then
+  let modelRead := observeRead c.env rdOut
+  -- the prescription reads an S-rooted path the way such a path is evaluated: a first step spelled
+  -- `S.name` / `Path(S, name)` means the scope variable (`_s_first_magic`) — also as a destination
+  let refSteps := readSteps c.sroot c.steps
+  let ref := refAssign c.env c.heap c.target root refSteps vs missing
+  if ref == .unsupported || (match out.2 with | .error .unmodelled => true | _ => false) ||
+      (match rdOut with | some (.error .unmodelled) => true | _ => false) then
     return Json.mkObj [("skip", true), ("why", "path outside the modelled domain (`**` / wildcard value)")]
-  let agree := modelObs == implObs
-  let holds := checkC11 c.env c.heap c.target root c.steps vs missing implObs
-  let modelHolds := checkC11 c.env c.heap c.target root c.steps vs missing modelObs
+  -- an S-rooted Assign that is the whole spec binds in a frame nothing can look into afterwards
+  let unseen := c.hasScope && !frameSeen
+  let implObsA := if unseen then { implObs0 with heap := patchCell implObs0.heap c.sref modelObs.heap } else implObs0
+  let implObs := if unseen then
+      (match ref with
+       | .ok h' _ _ => { implObs0 with heap := patchCell implObs0.heap c.sref h' }
+       | _ => implObs0)
+    else implObs0
+  let readAgree := match rd, implRead with
+    | some _, some r => modelObs.hidden || ReadObs.beq modelRead r   -- a hidden attribute: outside the cells
+    | none, none => true
+    | _, _ => false
+  let readHolds := match rd, implRead with
+    | some rs, some r => checkRead c.env c.heap c.target root refSteps vs missing (readSteps c.sroot rs) r
+    | none, none => true
+    | _, _ => false
+  let agree := modelObs == implObsA && readAgree
+  let holds := checkC11 c.env c.heap c.target root refSteps vs missing implObs && readHolds && scopeKept
+  let modelHolds := checkC11 c.env c.heap c.target root refSteps vs missing modelObs &&
+    (match rd with
+     | some rs => checkRead c.env c.heap c.target root refSteps vs missing (readSteps c.sroot rs) modelRead
+     | none => true)
   let star := hasStar c.steps
   let cov := covered c.env c.heap c.target c.sroot c.steps vs missing
   let covStar := star && WF c.env && classesOK c.env && noScope c.env && wfStar c.steps && valWf vs &&
     !valUnsupported c.heap vs && (match missing with | .none => true | _ => out.1.calls == 0)
-  let branch := (if c.sroot then "S:" else "") ++ (if star then "star:" else "") ++
+  let rdTag := match rd with
+    | none => ""
+    | some _ => (match modelRead with
+      | .notRun => "read-notrun:" | .ok _ => "read-ok:" | .err e => s!"read-{resTag e}:")
+  let branch := (if c.sroot then "S:" else "") ++ rdTag ++ (if star then "star:" else "") ++
     (if out.1.calls > 0 then s!"missing{out.1.calls}:" else "") ++ resTag modelObs.res ++
     (if cov then " [thm]" else if covStar then " [thm*]" else "")
   return Json.mkObj [("agree", agree), ("holds", holds), ("model_holds", modelHolds),
     ("wf", WF c.env), ("covered", cov || covStar), ("model", obsToJson modelObs),
+    ("model_read", readObsToJson modelRead),
+    ("why", if !scopeKept then "the mapping handed to glom(scope=…) was changed"
+            else if !readHolds then "the read-back step does not see what the plain-Python assignment leaves"
+            else ""),
     ("ref", match ref with
       | .ok _ hid n => s!"ok hidden={hid} calls={n}" | .fail a => s!"fail atomic={a}" | .unsupported => "unsupported"),
     ("branch", branch)]
